@@ -8,6 +8,8 @@ import check
 
 GEN = ['numeric', 'symmetry']
 LEAN_MODULES = ['XfabVerif.Proofs.C12']
+# definitions the hand-written model mirrors (see harness/pins.py): a source change breaks the tie
+PINS = ['xfab/symmetry.py:Umis']
 LEAN_DRIVER_MODULES = ['XfabVerif.Gen.Symmetry', 'XfabVerif.FloatPrelude']
 AUDIT_FILES = ['XfabVerif/Model/Symm.lean', 'XfabVerif/Gen/Symmetry.lean']
 RULE = ("all 7 crystal systems exhaustively (all pairs of operators for the group axioms); orientation pairs from the seeded "
